@@ -15,7 +15,7 @@ CHECKS = {
              "(C01_body_only_if_pre); otherwise no body, no capture, an error, store untouched (C01_reject), namely the "
              "error of the first falsy conjunct of the last group (C01_violated_contracts_error); conversely the body is "
              "entered (C01_body_if_pre). Tie: pinned wrapper skeletons regenerated from /repo + correspondence over all "
-             "9 callable kinds x sync/async with the executable statement spec_C01 evaluated on the implementation.",
+             "9 callable kinds x sync/async with the executable statement spec_C01 evaluated on the implementation; histories of definitions: the lists on the wrapper that enforces the contracts are the declared effective contracts (spec_C04).",
         note=TB + "Modelled, not verified: CPython call protocol, try/finally, exceptions. Kind-independence rests on the "
              "correspondence (the model runs one checker for every kind).",
         design="DESIGN.md section 6 C01"),
@@ -139,7 +139,7 @@ CHECKS = {
              "entered and receives what Python binds (C14_result_unchanged, _exception_unchanged, _body_entered, "
              "_identical_arguments). Tie: correspondence (spec_C14), decorator stacks with foreign functools.wraps "
              "decorators: one checker, all foreign decorators kept in order, original at the end (spec_C14_stacks), "
-             "members resolve as declared along the MRO (spec_C04), selection (spec_C03_selection).",
+             "members resolve as declared along the MRO (spec_C04), selection (spec_C03_selection); nested calls incl. async methods: without a violation the bodies entered and the outcome are those of the bare program (spec_C14_run).",
         note=TB + "Partial (correspondence only): metadata preservation (__name__, signature, abstractness, "
              "coroutine-ness) is a functools/inspect fact. The single-checker clause is checked, not yet proved.",
         design="DESIGN.md section 6 C14"),
@@ -172,7 +172,7 @@ CHECKS = {
     "C18": dict(
         text="Theorems: judging a call by hand over the introspected lists (DNF, then CNF on the result) gives the "
              "verdict of the call (C18_manual_precondition_verdict, C18_manual_postcondition_verdict). Tie: the lists "
-             "found through find_checker equal the effective contracts computed from the declarations (spec_C04); every "
+             "found through find_checker equal the effective contracts computed from the declarations (spec_C04); find_checker returns the wrapper whose code evaluates the contracts (spec_C18_introspection); every "
              "class created through DBCMeta is announced exactly once, in order (spec_C18_registered).",
         note=TB + "Registration is checked by correspondence, not proved.", design="DESIGN.md section 6 C18"),
     "C19": dict(
@@ -181,7 +181,7 @@ CHECKS = {
              "TypeError at decoration, snapshots without a postcondition or with a duplicate name a ValueError, "
              "_ARGS/_KWARGS keywords and result/OLD parameters a TypeError at the call before any condition "
              "(C19_*). Tie: definition histories with misuse; the exception class of each definition is compared with "
-             "the set of misuses computed from the declarations (spec_C19_defs).",
+             "the set of misuses computed from the declarations (spec_C19_defs); calls with parameters named result / OLD of every kind, passed positionally, by keyword or by default (spec_C19_call).",
         note=TB, design="DESIGN.md section 6 C19"),
     "C20": dict(
         text="Theorems: value lines are sorted by key (C20_sorted); sorting is independent of input order for distinct keys, "
